@@ -54,23 +54,36 @@ func (dp *DataProcessor) Process() {
 
 	// Main processing loop
 	for {
-		// Safely access dataChan using read lock
+		// Take the next row with a non-blocking receive under the read lock, so that
+		// it is mutually exclusive with expandDataChannel's migration (write lock).
+		// Receiving from a channel reference outside the lock let the processor take
+		// row i+1 from the old channel while the migration held row i in its hand:
+		// row i was then re-queued behind it and a single producer's rows were
+		// processed out of order.
 		dp.stream.dataChanMux.RLock()
 		currentDataChan := dp.stream.dataChan
-		dp.stream.dataChanMux.RUnlock()
-
-		// Check if dataChan is nil (stream has been stopped)
 		if currentDataChan == nil {
+			// dataChan is nil: stream has been stopped
+			dp.stream.dataChanMux.RUnlock()
 			return
 		}
-
 		select {
 		case data, ok := <-currentDataChan:
+			dp.stream.dataChanMux.RUnlock()
 			if !ok {
 				// Channel is closed
 				return
 			}
 			dp.processItem(data)
+			continue
+		default:
+		}
+		dp.stream.dataChanMux.RUnlock()
+
+		// Nothing buffered: wait (without consuming anything) until a sender signals
+		// new data, the stream stops, or the ticker fires as a safety net.
+		select {
+		case <-dp.stream.dataReady:
 		case <-dp.stream.done:
 			// Received close signal
 			return
